@@ -15,11 +15,11 @@ import (
 
 // Unit is one program to build natively.
 type Unit struct {
-	Key    string            // content hash (cache key)
-	Files  map[string]string // files of package pN (package clause "package main" is rewritten)
-	Vals   []uint64          // valuations to run
-	GoMaxProcs []int         // optional: one run per value and valuation (concurrent profiles)
-	Isolated bool            // needs its own binary (package init functions would otherwise run in every program's process)
+	Key        string            // content hash (cache key)
+	Files      map[string]string // files of package pN (package clause "package main" is rewritten)
+	Vals       []uint64          // valuations to run
+	GoMaxProcs []int             // optional: one run per value and valuation (concurrent profiles)
+	Isolated   bool              // needs its own binary (package init functions would otherwise run in every program's process)
 }
 
 // Run is what one execution observed.
@@ -46,13 +46,13 @@ type Result struct {
 
 // Options of a batch.
 type Options struct {
-	Race     bool
-	Timeout  time.Duration // per run
-	Workers  int
-	KeepDir  bool
-	BuildP   int // go build -p
+	Race      bool
+	Timeout   time.Duration // per run
+	Workers   int
+	KeepDir   bool
+	BuildP    int  // go build -p
 	InProcess bool // run all valuations of the merged programs in one process (only for programs without goroutines)
-	Env      []string
+	Env       []string
 }
 
 func goEnv() []string {
